@@ -4,6 +4,7 @@ import common
 from common import show_floats, show_ints, fbits
 import tprog, gen_dag, gen_ops
 
+tprog.SPELLINGS = True      # int-or-tuple arguments in every documented spelling
 PROP = 'C14'
 LEAN_TARGETS = ['Props.C14']
 REQUIRED_THEOREMS = ['Props.C14.linear_is_addmm', 'Props.C14.cross_entropy_is_nll_log_softmax', 'Props.C14.mean_is_sum_div_count',
@@ -114,7 +115,7 @@ def gen_identity(rng, which):
         return finish(b, l, r, rng)
     if which == 'conv2d':
         n, c, co = rng.randint(1, 2), rng.randint(1, 2), rng.randint(1, 2)
-        H, kh, sh_, ph, dh = gen_ops.geom1(rng); W, kw, sw, pw, dw = gen_ops.geom1(rng)
+        (H, kh, sh_, ph, dh), (W, kw, sw, pw, dw) = gen_ops.geom2(rng)
         lh = (H + 2 * ph - dh * (kh - 1) - 1) // sh_ + 1; lw = (W + 2 * pw - dw * (kw - 1) - 1) // sw + 1
         x, w = b.leaf((n, c, H, W), V((n, c, H, W))), b.leaf((co, c, kh, kw), V((co, c, kh, kw)))
         l = b.op('conv2d', [x, w], 0, show_ints((sh_, sw)), show_ints((ph, pw)), show_ints((dh, dw)))
@@ -126,7 +127,7 @@ def gen_identity(rng, which):
     if which in ('maxpool', 'avgpool'):
         n, c = rng.randint(1, 2), rng.randint(1, 2)
         while True:
-            H, kh, sh_, ph, dh = gen_ops.geom1(rng); W, kw, sw, pw, dw = gen_ops.geom1(rng)
+            (H, kh, sh_, ph, dh), (W, kw, sw, pw, dw) = gen_ops.geom2(rng)
             if ph <= kh // 2 and pw <= kw // 2: break
         lh = (H + 2 * ph - dh * (kh - 1) - 1) // sh_ + 1; lw = (W + 2 * pw - dw * (kw - 1) - 1) // sw + 1
         x = b.leaf((n, c, H, W), V((n, c, H, W), 'distinct'))
